@@ -453,6 +453,19 @@ def exc_annotations(repo, tier="quick"):
         (obs.append(ob_ok(oid, fi, call, construct="try: bind(...) except TypeError: raise SyntaxError", instance="bind",
                           reason="too many positional values / unknown structure are reported as SyntaxError")) if good else
          obs.append(ob_fail(oid, fi, call, construct="bind(...)", instance="bind", reason=why)))
+        # bind can only count the key-less values when it receives them as positional arguments
+        starred = [a for a in call.args if isinstance(a, ast.Starred)]
+        explicit = False
+        for n in cfg.nodes:
+            if n.kind == "if" and any(isinstance(x, ast.Call) and isinstance(x.func, ast.Name) and x.func.id == "len" for x in ast.walk(n.ast.test)) and \
+                    any(isinstance(x, ast.Compare) and isinstance(x.ops[0], (ast.Gt, ast.GtE, ast.Lt, ast.LtE)) for x in ast.walk(n.ast.test)):
+                ok_r, _ = arm_always_raises(fi, n, "T", {"SyntaxError"})
+                explicit = explicit or ok_r
+        (obs.append(ob_ok(oid, fi, call, construct="bind(*<key-less values>, ...)", instance="bind:positional",
+                          reason="the signature's own arity check sees every key-less value")) if starred or explicit else
+         obs.append(ob_fail(oid, fi, call, construct=ast.unparse(call)[:80], instance="bind:positional",
+                            reason="the key-less values are not handed to bind as positional arguments and there is no explicit count test: "
+                                   "a surplus positional value is dropped or mis-assigned instead of being rejected with SyntaxError")))
     # (c) the cast
     cfi = repo.function("dialects:check_and_cast_types")
     ccfg, cfl = cfi.cfg, cfi.flow
